@@ -2,6 +2,7 @@ import Bec2Verif.Lemmas.EcdsaSound
 import Bec2Verif.Lemmas.EcdsaCodec
 import Bec2Verif.Props.C17Group
 import Bec2Verif.Lemmas.P256Laws
+import Bec2Verif.Lemmas.CertConsequences
 /-!
 # C18 — ECDSA: signatures verify, range and malformed signatures are rejected, codecs round-trip, RFC 6979 range
 
@@ -195,6 +196,23 @@ theorem ecdsa_p256_end_to_end (secret hash randomK r s X Y Z : ℤ)
   exact signatures_verify P256C.cOK d256 P256C.curve_p P256C.curve_a P256C.N rfl P256C.n_prime (by decide) P256C.Gp
     P256C.g_trep hgx P256C.g_order P256C.g_ne secret { X := X, Y := Y, Z := Z, order := (P256C.N : ℤ), gen := false }
     hrep hxc' (Or.inr rfl) rfl hash randomK r s hs
+
+/-! ### the named curves whose order is certified prime -/
+
+theorem order_certified_names : Cert.orderCertified.map (·.name) =
+    ["NIST192p", "NIST224p", "NIST256p", "SECP256k1", "BRAINPOOLP160r1", "BRAINPOOLP224r1", "BRAINPOOLP256r1",
+     "SECP112r1", "SECP128r1", "SECP160r1"] := by decide
+
+/-- **ECDSA end to end on ten named curves, nothing assumed**: for every secret, hash value and nonce, a signature
+returned by `sign` verifies under the public point the library derives from the secret (`Lemmas/CurveCerts.lean`:
+Lucas certificates for `p` and `n`, root-freeness certificate, `n·G = 0` by kernel evaluation) -/
+theorem ecdsa_on_certified_curves (r : Gen.CurveRec) (hr : r ∈ Cert.orderCertified)
+    (secret hash randomK rr ss X Y Z : ℤ)
+    (hpub : pjMul (Cert.curveOf r) (Cert.genOf r) secret = some (.jac X Y Z))
+    (hs : sign (Cert.domOf r) secret hash randomK = .ok (rr, ss)) :
+    verifies (Cert.domOf r) { X := X, Y := Y, Z := Z, order := r.n, gen := false } hash rr ss = .ok true :=
+  Cert.ecdsa_certified r (Cert.orderCertified_ok r hr).1 (Cert.orderCertified_ok r hr).2 secret hash randomK rr ss X Y Z
+    hpub hs
 
 /-- a concrete signature (`secret = 7`, `hash = 5`, nonce 3) and its verification, by evaluation of the model … -/
 example : sign d23 7 5 3 = .ok (3, 19) := by decide +kernel
